@@ -56,15 +56,15 @@ def cfgStr (c : Cfg) : String :=
 
 def pcName : Pc → String
   | .idle => "idle" | .acq => "acq" | .chkEvt => "chkEvt" | .chk1 => "chk1" | .chk2 => "chk2"
-  | .submit => "submit" | .wait => "wait" | .rel => "rel" | .relExc => "relExc" | .waitEvt => "waitEvt" | .join => "join"
+  | .submit => "submit" | .wait => "wait" | .rel => "rel" | .waitEvt => "waitEvt" | .join => "join"
 
 def jobName : Job → String
   | .none => "-" | .submitted _ => "sub" | .blocked _ => "blocked" | .running => "running"
   | .done o => "done:" ++ o.name
 
 def cpcName : ClosePc → String
-  | .idle => "idle" | .spawned => "spawned" | .begun => "begun" | .wantLock => "wantLock" | .haveLock => "haveLock"
-  | .stopCalled => "stopCalled" | .eventSet => "eventSet" | .done => "done"
+  | .idle => "idle" | .spawned => "spawned" | .begun => "begun" | .inCb => "inCb"
+  | .stopCalled => "stopCalled" | .done => "done"
 
 def tidName : Option Tid → String
   | none => "-" | some (.caller i) => s!"T{i}" | some .loop => "loop"
